@@ -60,7 +60,7 @@ def _instance(env, nw=0):
     if sq is not None:
         env.discard(sq)
         env.instances.pop(nw, None)
-    sq = env.new_squid(ROCK, conf=CONF, cache_mem="16 MB", workers=SQUID_WORKERS, ports=SQUID_WORKERS, timeout=300)
+    sq = env.new_squid(ROCK, conf=CONF, cache_mem="16 MB", workers=SQUID_WORKERS, ports=SQUID_WORKERS, timeout=420)
     if not ds.wait_finished_rebuilding(sq, 120):
         env.discard(sq)
         return None
